@@ -1,6 +1,7 @@
 package rules
 
 import (
+	"go/constant"
 	"go/token"
 
 	"golang.org/x/tools/go/ssa"
@@ -113,7 +114,8 @@ func ruleTimestampLookupShapes(c *eng.Ctx) {
 		c.Check(okRead, "the entry returned is the one the search found", p.Pos(fn.Pos()), "ReadEntryAtLogOffset(entry, idx)", "findEntryByTimestamp does not read back the entry at the index the search answered")
 	}
 
-	segIdx := eng.Call(0, cl+"findSegmentIndexByTimestamp")
+	segIdxCall := eng.Call(0, cl+"findSegmentIndexByTimestamp")
+	segIdx := steppedSegIdx()
 	entryOf := eng.Call(0, cl+"segment.findEntryByTimestamp")
 	errOf := eng.Call(1, cl+"segment.findEntryByTimestamp")
 	for _, k := range []string{"EarliestOffsetAfterTimestamp", "LatestOffsetBeforeTimestamp"} {
@@ -202,8 +204,13 @@ func ruleTimestampLookupShapes(c *eng.Ctx) {
 		for _, lo := range eng.CallsIn(fn, cl+"segment.LastOffset") {
 			afterMissing = append(afterMissing, lo.(ssa.Instruction))
 		}
+		// … or when no entry CAN follow: the largest timestamp there is
+		noneCanFollow := eng.CmpEdges(fn, tsArg, func(v ssa.Value) bool {
+			k, isK := eng.Strip(v).(*ssa.Const)
+			return isK && k.Value != nil && k.Value.Kind() == constant.Int && k.Int64() == 1<<63-1
+		}, eng.EQ)
 		for _, in := range afterMissing {
-			if g, _ := eng.GuardedBy(fn, in, tolerated); !g {
+			if g, _ := eng.GuardedBy(fn, in, append(append([]eng.Edge{}, tolerated...), noneCanFollow...)); !g {
 				okPol, polWhy = false, "the fall-back for a missing entry is reached although the entry search did not fail with ErrEntryNotFound / io.EOF ("+c.Pos(in)+")"
 			}
 		}
@@ -250,6 +257,35 @@ func ruleTimestampLookupShapes(c *eng.Ctx) {
 			}
 		}
 		c.Check(okEmpty, "an empty log answers the next assignable offset", p.Pos(fn.Pos()), "segment search failed with io.EOF → NextOffset() of the last segment", "EarliestOffsetAfterTimestamp does not answer the next assignable offset exactly when the segment search reports an empty log")
+		// messages can share a timestamp: while the segment that would be searched BEGINS at or after the timestamp, the
+		// earliest message carrying it may sit at the end of the segment before — the lookup steps back
+		beginsAt := eng.CmpEdges(fn, eng.Call(-1, cl+"segment.FirstWriteTime"), tsArg, eng.GT|eng.EQ)
+		okBack := false
+		eng.Instrs(fn, func(in ssa.Instruction) {
+			b, isB := in.(*ssa.BinOp)
+			if !isB || b.Op != token.SUB || !eng.IntConst(1)(b.Y) {
+				return
+			}
+			ph, isPhi := b.X.(*ssa.Phi)
+			if !isPhi || !segIdx(ph) || segIdxCall(ph) {
+				return
+			}
+			feeds := false
+			for _, e := range ph.Edges {
+				if e == ssa.Value(b) {
+					feeds = true
+				}
+			}
+			if !feeds {
+				return
+			}
+			g1, _ := eng.GuardedBy(fn, in, beginsAt)
+			g2, _ := eng.GuardedBy(fn, in, eng.CmpEdges(fn, func(v ssa.Value) bool { return v == ssa.Value(ph) }, eng.IntConst(1), eng.GT))
+			if g1 && g2 && len(beginsAt) > 0 {
+				okBack = true
+			}
+		})
+		c.Check(okBack, "EarliestOffsetAfterTimestamp steps back over segments that begin at the timestamp", p.Pos(fn.Pos()), "for idx > 1 && segments[idx-1].FirstWriteTime() >= timestamp { idx-- }", "EarliestOffsetAfterTimestamp searches the last segment that begins at or before the timestamp even when it begins exactly at it: with segments [10 20 30][30 40 50] a start timestamp of 30 answers offset 3, and the message stamped 30 at offset 2 is not delivered")
 		nFound, nEnd, bad := 0, 0, ""
 		for _, r := range eng.Returns(fn) {
 			rv := eng.RetVals(r)
@@ -290,9 +326,21 @@ func ruleTimestampLookupShapes(c *eng.Ctx) {
 			okBefore = okPolB
 		}
 		c.Check(okBefore, "a timestamp before the log is refused", p.Pos(fn.Pos()), "timestamp < first write time of the first segment", "LatestOffsetBeforeTimestamp does not refuse exactly the timestamps earlier than the first message: with <= a stop timestamp equal to the first message's is refused although that message is in range")
-		exact := eng.CmpEdges(fn, eng.LoadNamed("Timestamp", entryOf), tsArg, eng.EQ)
-		inexact := eng.CmpEdges(fn, eng.LoadNamed("Timestamp", entryOf), tsArg, eng.NE)
-		var okExact, okPrev, okLast bool
+		// messages can share a timestamp: the answer is the offset before the first entry STRICTLY after the timestamp
+		// (search key timestamp+1, guarded against overflow), never the first entry that matches it
+		es := eng.CallsIn(fn, cl+"segment.findEntryByTimestamp")
+		okKey := len(es) == 1 && eng.Bin(token.ADD, tsArg, eng.IntConst(1))(es[0].Common().Args[1])
+		c.Check(okKey, "LatestOffsetBeforeTimestamp looks for the first entry strictly after the timestamp", p.Pos(fn.Pos()), "findEntryByTimestamp(timestamp + 1)", "LatestOffsetBeforeTimestamp searches for the first entry AT or after the timestamp and takes a match for the answer: with timestamps 10, 20, 20, 30 a stop timestamp of 20 answers offset 1, and the second message stamped 20 is not delivered")
+		if okKey {
+			isMax := func(v ssa.Value) bool {
+				k, isK := eng.Strip(v).(*ssa.Const)
+				return isK && k.Value != nil && k.Value.Kind() == constant.Int && k.Int64() == 1<<63-1
+			}
+			notMax := eng.CmpEdges(fn, tsArg, isMax, eng.NE)
+			g, _ := eng.GuardedBy(fn, es[0].(ssa.Instruction), notMax)
+			c.Check(g && len(notMax) > 0, "timestamp + 1 cannot overflow", c.Pos(es[0].(ssa.Instruction)), "the search runs behind timestamp != MaxInt64", "for timestamp == MaxInt64 the search key timestamp+1 wraps to the smallest value: the first entry of the segment is found and the offset before it answered")
+		}
+		var okPrev, okLast bool
 		bad := ""
 		for _, r := range eng.Returns(fn) {
 			rv := eng.RetVals(r)
@@ -301,25 +349,46 @@ func ruleTimestampLookupShapes(c *eng.Ctx) {
 			}
 			switch {
 			case eng.LoadNamed("Offset", entryOf)(rv[0]):
-				gf, _ := eng.GuardedBy(fn, r, eng.CmpEdges(fn, errOf, eng.NilConst, eng.EQ))
-				if g, _ := eng.GuardedBy(fn, r, exact); g && len(exact) > 0 && gf {
-					okExact = true
-				} else {
-					bad = "the found entry's own offset is answered although its timestamp is later than the one asked for (" + c.Pos(r) + ")"
-				}
+				bad = "the found entry's own offset is answered (" + c.Pos(r) + "): it is the first entry past the timestamp, or the first of several that share it"
 			case eng.Bin(token.SUB, eng.LoadNamed("Offset", entryOf), eng.IntConst(1))(rv[0]):
-				gf, _ := eng.GuardedBy(fn, r, eng.CmpEdges(fn, errOf, eng.NilConst, eng.EQ))
-				if g, _ := eng.GuardedBy(fn, r, inexact); g && len(inexact) > 0 && gf {
+				if gf, _ := eng.GuardedBy(fn, r, eng.CmpEdges(fn, errOf, eng.NilConst, eng.EQ)); gf {
 					okPrev = true
 				} else {
-					bad = "offset-1 is answered although the found entry matches the timestamp exactly (" + c.Pos(r) + ")"
+					bad = "offset-1 of an entry is answered although the entry search failed (" + c.Pos(r) + ")"
 				}
 			case eng.Call(-1, cl+"segment.LastOffset")(rv[0]):
 				okLast = true
 			default:
-				bad = "a success return answers neither the entry's offset, the offset before it, nor the segment's last offset (" + c.Pos(r) + ")"
+				bad = "a success return answers neither the offset before the found entry nor the segment's last offset (" + c.Pos(r) + ")"
 			}
 		}
-		c.Check(bad == "" && okExact && okPrev && okLast, "LatestOffsetBeforeTimestamp answers the last offset at or before the timestamp", p.Pos(fn.Pos()), "entry.Offset on an exact match, entry.Offset-1 otherwise, the segment's last offset when every entry is earlier", "LatestOffsetBeforeTimestamp: "+bad+" — a subscription stopping at a timestamp stops one message early or late")
+		c.Check(bad == "" && okPrev && okLast, "LatestOffsetBeforeTimestamp answers the last offset at or before the timestamp", p.Pos(fn.Pos()), "the offset before the first entry past the timestamp, the segment's last offset when there is none", "LatestOffsetBeforeTimestamp: "+bad+" — a subscription stopping at a timestamp stops one message early or late")
+	}
+}
+
+// steppedSegIdx matches the segment index the timestamp lookups work with: what findSegmentIndexByTimestamp answered, possibly
+// stepped back (idx--) in a loop.
+func steppedSegIdx() eng.VM {
+	segIdxCall := eng.Call(0, cl+"findSegmentIndexByTimestamp")
+	return func(v ssa.Value) bool {
+		if segIdxCall(v) {
+			return true
+		}
+		ph, ok := v.(*ssa.Phi)
+		if !ok {
+			return false
+		}
+		has := false
+		for _, e := range ph.Edges {
+			if segIdxCall(e) {
+				has = true
+				continue
+			}
+			if b, isB := e.(*ssa.BinOp); isB && b.Op == token.SUB && b.X == ssa.Value(ph) && eng.IntConst(1)(b.Y) {
+				continue
+			}
+			return false
+		}
+		return has
 	}
 }
